@@ -100,7 +100,7 @@ class RationalQuadraticSpline(AbstractBijection):
         # Following notation from the paper
         x_pos, y_pos, derivatives = self.x_pos, self.y_pos, self.derivatives
         in_bounds = jnp.logical_and(x >= self.interval[0], x <= self.interval[1])
-        x_robust = jnp.where(in_bounds, x, 0)  # To avoid nans
+        x_robust = jnp.where(in_bounds, x, self.interval[0])  # To avoid nans
         k = jnp.clip(jnp.searchsorted(x_pos, x_robust) - 1, 0, self.knots)
         xi = (x_robust - x_pos[k]) / (x_pos[k + 1] - x_pos[k])
         sk = (y_pos[k + 1] - y_pos[k]) / (x_pos[k + 1] - x_pos[k])
@@ -122,7 +122,7 @@ class RationalQuadraticSpline(AbstractBijection):
         # Following notation from the paper
         x_pos, y_pos, derivatives = self.x_pos, self.y_pos, self.derivatives
         in_bounds = jnp.logical_and(y >= self.interval[0], y <= self.interval[1])
-        y_robust = jnp.where(in_bounds, y, 0)  # To avoid nans
+        y_robust = jnp.where(in_bounds, y, self.interval[0])  # To avoid nans
         k = jnp.clip(jnp.searchsorted(y_pos, y_robust) - 1, 0, self.knots)
         xk, xk1, yk, yk1 = x_pos[k], x_pos[k + 1], y_pos[k], y_pos[k + 1]
         sk = (yk1 - yk) / (xk1 - xk)
@@ -150,7 +150,7 @@ class RationalQuadraticSpline(AbstractBijection):
         # Following notation from the paper (eq. 5)
         x_pos, y_pos, derivatives = self.x_pos, self.y_pos, self.derivatives
         in_bounds = jnp.logical_and(x >= self.interval[0], x <= self.interval[1])
-        x_robust = jnp.where(in_bounds, x, 0)  # To avoid nans
+        x_robust = jnp.where(in_bounds, x, self.interval[0])  # To avoid nans
         k = jnp.clip(jnp.searchsorted(x_pos, x_robust) - 1, 0, self.knots)
         xi = (x_robust - x_pos[k]) / (x_pos[k + 1] - x_pos[k])
         sk = (y_pos[k + 1] - y_pos[k]) / (x_pos[k + 1] - x_pos[k])
